@@ -451,7 +451,7 @@ func checkSensorReaders(c *Ctx, r *Report) {
 	fsr := c.Named("pkg/ipmi", "FullSensorRecord")
 	var ctor *ssa.Function
 	for _, fn := range c.LibFuncs() {
-		if fn.Pkg != nil && fn.Pkg.Pkg.Path() == modPath && fn.Object() != nil && fn.Object().Exported() && len(fn.Params) == 1 && isPtrTo(fn.Params[0].Type(), fsr) && fn.Signature.Results().Len() == 2 {
+		if fn.Pkg != nil && c.libFn(fn) && fn.Object() != nil && fn.Object().Exported() && len(fn.Params) == 1 && isPtrTo(fn.Params[0].Type(), fsr) && fn.Signature.Results().Len() == 2 {
 			ctor = fn
 		}
 	}
